@@ -895,6 +895,13 @@ func (data *Data) createVersionMeasurement(db string, rp *RetentionPolicyInfo, s
 		ski.ShardGroup = 0
 	}
 	nameWithVer := influx.GetNameWithVersion(mst, version)
+	declared := make(map[string]int32, len(schemaInfo))
+	for _, f := range schemaInfo {
+		if typ, ok := declared[f.GetFieldName()]; ok && typ != f.GetFieldType() {
+			return ErrFieldTypeConflict
+		}
+		declared[f.GetFieldName()] = f.GetFieldType()
+	}
 
 	msti := NewMeasurementInfo(nameWithVer, mst, engineType, data.MaxMstID)
 	data.MaxMstID++
